@@ -8,7 +8,8 @@ EXPLANATION = ("Q1 the transition relation of the start/next/finish shims, obtai
                "method, error -> Error); next outside Active returns Ok(None) before any call (so it cannot panic), Err -> Error, "
                "Ok(None) at the head of the chain or on a direct stream -> Done, the callee's result is returned unmodified; finish on "
                "Closed returns the synthetic rc 80 without calls, otherwise the inner finish sets Closed and returns the stored result "
-               "or the synthetic rc 88; Q2 the inner receive hands out ResultEntry(tag, controls) built from the received item's own "
+               "or the synthetic rc 88; Q7 a stream that was not read to the end (any state but Done) answers 88 even if a result is "
+               "stored - or else every adapter path that starts a follow-up Search has emptied stream.res; Q2 the inner receive hands out ResultEntry(tag, controls) built from the received item's own "
                "components, stores Done's result with its controls and returns Ok(None), maps a closed channel to Err(EndOfStream); "
                "Q3 constants (is_ref <=> 19, is_intermediate <=> 25, 80, 88); Q4 Ldap::search = streaming_search_with(EntriesOnly) + "
                "push every entry in order + finish; EntriesOnly drops intermediates, collects referral URIs, passes everything else.")
@@ -183,6 +184,7 @@ def run(ctx):
     FI = hirq.Body(f, stream_body(f, 'finish_inner'))
     ctx.analysed['bodies'].add(FI.path)
     synthetic = []
+    unfinished_ok, unfinished_bad = 0, []
     for s in STATES:
         seen_res = set()
         for o in run_from(f, FI, s, combinators=True):
@@ -192,6 +194,16 @@ def run(ctx):
             v = o.val
             stored = sem.taken_from  # the stored result is moved out of self.res (take / mem::take / mem::replace(.., None))
             has = absx.pc_variant(o.st.pc, lambda x: stored(x, lambda p: p == ('field', SELF, 'res')) or x == ('field', SELF, 'res'), 'Some')
+            if s != 'Done':
+                # "read to the end" is the state Done (Q1.next: Ok(None) at the head of the chain).  From any other state the answer
+                # is the synthetic 88 - whether or not a result is stored: `res` is a public field, and an adapter that chains several
+                # Searches leaves the result of an earlier one there while the next is in progress
+                if struct_rc(v) == 88:
+                    unfinished_ok += 1
+                    synthetic.append(88)
+                else:
+                    unfinished_bad.append((s, has, absx.fmt(v)[:70]))
+                continue
             if has is True:
                 seen_res.add('stored')
                 okv = sem.payload_of(v, lambda x: stored(x, lambda p: p == ('field', SELF, 'res')))
@@ -203,7 +215,19 @@ def run(ctx):
                         'without a stored final result finish_inner must return the synthetic result code 88, found %s' % absx.fmt(v)[:80])
             else:
                 ctx.fail('Q1.finish_inner.returns-stored-or-88', s, loc(FI.root), 'finish_inner does not decide on the stored final result (self.res): %s' % absx.fmt(v)[:80])
-        ctx.add('Q1.finish_inner.returns-stored-or-88', s + '|coverage', loc(FI.root), seen_res == {'stored', 'none'}, 'finish_inner paths seen for a stored result: %s' % sorted(seen_res))
+        if s == 'Done':
+            ctx.add('Q1.finish_inner.returns-stored-or-88', s + '|coverage', loc(FI.root), seen_res == {'stored', 'none'}, 'finish_inner paths seen for a stored result: %s' % sorted(seen_res))
+    # Q7: a stream that was not read to the end answers 88.  Either finish_inner itself answers 88 from every state but Done, or no
+    # code of the crate can leave a stored result behind in a stream that goes on: every adapter path that splices a new receiver
+    # into the stream has emptied stream.res (and then "stored" implies Done, Q2.done-stores-result being the only other writer)
+    if unfinished_bad:
+        leftovers = stale_results_left_by_adapters(ctx, f)
+        ctx.add('Q7.unfinished-stream-answers-88', 'finish_inner', loc(FI.root), leftovers == [],
+                'finish() on a stream that was not read to the end must return the synthetic result 88, but finish_inner returns the stored result '
+                'from state(s) %s and %s leaves the result of an earlier Search in stream.res while the next one is in progress (paged search, '
+                'finish() or an error on page 2+ returns page 1\'s server result)' % (sorted({b[0] for b in unfinished_bad}), ', '.join(leftovers) or '-'))
+    else:
+        ctx.add('Q7.unfinished-stream-answers-88', 'finish_inner', loc(FI.root), unfinished_ok >= 3, 'finish_inner paths from Fresh / Active / Error: %d' % unfinished_ok)
     # Q3: the value finish_inner returns on the paths without a stored final result (wherever and however it is built: a struct
     # literal in a closure, a helper, a named constant) carries the literal result code 88
     ctx.add('Q3.cancelled-is-88', FI.path, loc(FI.root), bool(synthetic) and all(rc == 88 for rc in synthetic),
@@ -476,6 +500,27 @@ def inner_async_body(root):
 
 def calls_of_nonstring(o):
     return [e for e in calls_of(o) if not e[1].startswith('<alloc::string::String as core::convert::From') and not e[1].endswith('Vec::<T>::new')]
+
+def stale_results_left_by_adapters(ctx, f):
+    """Adapter::next implementations of the crate with a path that stores a new receiver into the stream (a follow-up Search spliced
+    in) while stream.res still holds what it held before"""
+    out = []
+    for p, h in f.hir.items():
+        if not (p.startswith('<ldap3::adapters::') and ' as ldap3::adapters::Adapter<' in p and p.endswith('>::next')):
+            continue
+        B = hirq.Body(f, h)
+        ctx.analysed['bodies'].add(p)
+        root = inner_async_body(B.root)
+        stream = ('param', 'stream')
+        for o in absx.Interp(f, B, unroll=1, for_once=True, combinators=True).run(root=root):
+            hp = o.st.heap
+            # a path that starts a follow-up Search (whether it succeeds and is spliced in, or fails and the stream goes to Error)
+            # or stores a new receiver: from here on the stored result is not the result of what the stream is doing
+            follow_up = any(e[0] == 'call' and (e[1].endswith('::streaming_search') or e[1].endswith('::streaming_search_with')) for e in o.st.ev)
+            if (follow_up or ('field', stream, 'rx') in hp) and hp.get(('field', stream, 'res')) != ('ctor', 'None', ()):
+                out.append(p.split(' as ')[0].lstrip('<').split('<')[0].rsplit('::', 1)[-1] + '::next')
+                break
+    return sorted(set(out))
 
 def struct_rc(v):
     if v[0] == 'struct':
